@@ -459,6 +459,7 @@ namespace sim
         case K_NM_ACCESS:          unary<x_nm_access> (o); break;
         case K_EMPLACE_CREF_ALIAS: unary_if<x_emplace_cref_alias> (o, C); break;
         case K_EMPLACE_BACK_CREF_ALIAS: unary_if<x_emplace_back_cref_alias> (o, C); break;
+        case K_EMPLACE_MEMBER_ALIAS: unary<x_emplace_member_alias> (o); break;
         default:                   info.outcome = OUT_SKIPPED; break;
       }
     }
